@@ -54,10 +54,12 @@ Definition statements (ps : list piece) : list str :=
 (* ---- layouts: how one logical line is spread over physical lines ----
    The character stream of the logical line is cut into segments; every segment but the last
    ends with '&' (optionally followed by blanks and an ordinary comment), every segment but the
-   first starts with '&' (the exact-join form of continuation, mandatory inside tokens and
-   literals); blank lines and ordinary comment lines may follow a continued line. *)
+   first either starts with '&' (the exact-join form of continuation, mandatory inside tokens and
+   literals) or starts with its text directly (allowed between tokens); blank lines and ordinary
+   comment lines may follow a continued line. *)
 Inductive bline := BBlank (n : nat) | BComment (ind : nat) (text : str).
-Record seg := { sg_ind : nat; sg_text : str; sg_trail : nat; sg_comment : option str;
+Record seg := { sg_amp : bool;   (* continuation line starts with '&' (ignored for the first segment) *)
+                sg_ind : nat; sg_text : str; sg_trail : nat; sg_comment : option str;
                 sg_between : list bline }.
 
 Definition render_bline (b : bline) : str :=
@@ -67,7 +69,8 @@ Definition render_comment (c : option str) : str :=
   match c with Some t => bang :: t | None => [] end.
 
 Definition render_seg_line (first last : bool) (sg : seg) : str :=
-  spaces (sg_ind sg) ++ ((if first then [] else [amp]) ++ sg_text sg ++ (if last then [] else [amp]))
+  spaces (sg_ind sg) ++ ((if first then [] else if sg_amp sg then [amp] else []) ++ sg_text sg
+                          ++ (if last then [] else [amp]))
   ++ spaces (sg_trail sg) ++ render_comment (sg_comment sg).
 
 Fixpoint render_segs (first : bool) (l : list seg) : list str :=
@@ -78,6 +81,17 @@ Fixpoint render_segs (first : bool) (l : list seg) : list str :=
   end.
 
 Definition ll_text (l : list seg) : str := flat_map sg_text l.
+
+(* The character stream the segments denote: an '&'-led segment continues exactly where the
+   previous one stopped; a segment without leading '&' continues after a token boundary, which
+   is written here as one blank between the trimmed parts. *)
+Fixpoint joined_from (buf : str) (l : list seg) : str :=
+  match l with
+  | [] => buf
+  | sg :: l' => joined_from (if sg_amp sg then buf ++ sg_text sg else strip buf ++ " "%char :: sg_text sg) l'
+  end.
+Definition joined (l : list seg) : str :=
+  match l with [] => [] | sg :: l' => joined_from (" "%char :: sg_text sg) l' end.
 
 (* a file: logical lines with blank and ordinary comment lines around them *)
 Inductive fitem := FBlank (n : nat) | FComment (ind : nat) (text : str) | FLine (segs : list seg).
@@ -92,9 +106,9 @@ Definition render_file (f : list fitem) : list str := flat_map render_item f.
 
 (* the character streams of the logical lines, in order: all that the statements may depend on *)
 Definition file_texts (f : list fitem) : list str :=
-  flat_map (fun it => match it with FLine segs => [ll_text segs] | _ => [] end) f.
+  flat_map (fun it => match it with FLine segs => [joined segs] | _ => [] end) f.
 
 (* what a logical line with character stream x yields: the ';'-separated parts outside
    literals, each trimmed *)
 Definition stmts_of (x : str) : list str :=
-  map strip (filter (fun y => match y with [] => false | _ => true end) (quote_split semi (" "%char :: x))).
+  map strip (filter (fun y => match y with [] => false | _ => true end) (quote_split semi x)).
